@@ -5,6 +5,7 @@ isolation between partitions is structural.  The judge compares every store / ge
 of the real server with this specification (including consumers and groups sharing numeric ids).
 -/
 import Iggy.Log.SpecRun
+import Iggy.Log.RefineRun
 namespace Iggy.Props.C07
 open Iggy.Log
 
@@ -48,5 +49,23 @@ def p0 : SPart := (SPart.create exCfg none).append 5 [⟨1, 50, 1⟩, ⟨2, 50, 
 example : ∃ p1, p0.storeOffset true 7 2 = .ok p1 ∧ p1.getOffset true 7 = some 2 ∧ p1.getOffset false 7 = none :=
   ⟨_, rfl, by decide, by decide⟩
 example : p0.storeOffset false 1 3 = .error .invalidOffset := rfl
+
+
+/-! ## on the storage model L1 -/
+
+/-- the L1 offset operations are the specification's, state by state -/
+theorem l1_offsets_refine {cfg : Cfg} {p : Part} (hseg : 0 < cfg.segSize) (r : Reach cfg p) (grp : Bool)
+    (cid off : Nat) :
+    (p.storeOffset grp cid off).map abs = (abs p).storeOffset grp cid off ∧
+    (p.deleteOffset grp cid).map abs = (abs p).deleteOffset grp cid ∧
+    p.getOffset grp cid = (abs p).getOffset grp cid :=
+  ⟨(storeOffset_refines (r.inv hseg) grp cid off).1, (deleteOffset_refines (r.inv hseg) grp cid).1,
+    getOffset_refines p grp cid⟩
+
+/-- stored offsets survive a restart unchanged -/
+theorem l1_survive_restart {cfg : Cfg} {p : Part} (hseg : 0 < cfg.segSize) (r : Reach cfg p) {now : Nat}
+    (hnow : ∀ m ∈ p.msgs, m.ts ≤ now) (n : Nat) :
+    (p.restart cfg now n).consOffs = p.consOffs ∧ (p.restart cfg now n).grpOffs = p.grpOffs :=
+  ⟨(reach_restart_same hseg r hnow n).2.2.1, (reach_restart_same hseg r hnow n).2.2.2.1⟩
 
 end Iggy.Props.C07
